@@ -307,7 +307,8 @@ func main() {
 		emit(seqScenario("seq/ttl=0", 0, []string{"A", "B", "C"}, nil, d, 0, false, cfg.Seed, 5))
 		cvals, cdts := []string{"pre-0", "A", ""}, []time.Duration{0, 1, ttl, -1}
 		if cfg.Thorough() {
-			cvals, cdts = []string{"pre-0", "pre-1", "A", ""}, nil
+			// depth 3 over 3 values x 5 steps (each transition re-fills 102400 entries)
+			cdts = []time.Duration{0, 1, ttl, -1, ttl + 1}
 		}
 		for j := 0; j <= 2; j++ {
 			emit(seqScenario(fmt.Sprintf("capacity/prefill=cap-%d", j), ttl, cvals, cdts, dc, replayfilter.VerifMaxFilterSize-j, false, cfg.Seed, 100))
